@@ -76,13 +76,13 @@ func (mp MultiPolygon) Polygons() []Polygon {
 // actually inside the outer rings.
 func (mp MultiPolygon) Centroid() Point {
 	// See Polygon.Centroid: the sums are cubic in the coordinates.
-	if k := centroidScale(mp...); k != 1 {
+	if kx, ky := centroidScale(mp...); kx != 1 || ky != 1 {
 		q := make(MultiPolygon, len(mp))
 		for i, p := range mp {
-			q[i] = p.scaled(k)
+			q[i] = p.scaled(kx, ky)
 		}
 		c := q.Centroid()
-		return Point{X: c.X * k, Y: c.Y * k}
+		return Point{X: c.X * kx, Y: c.Y * ky}
 	}
 	var A, xA, yA float64
 	for _, p := range mp {
